@@ -14,7 +14,7 @@ def run(ctx):
                 'validated by TLC against EditLaws (SliceLaw, NothingElse, OracleAgree, CarriedOutNotRefused). '
                 'distinct = distinct (kind, field, form, entry point, code form, outcome, bound kinds) tuples executed')
     ctx.assumptions += ['projection (harness/proj.py) and pure-AST oracle (ast.unparse/ast.parse/compile) are trusted',
-                        'f-string internals excluded; raw mode excluded (C10)']
+                        'f-string internals edited only through fv_replace events (format specs excluded); raw mode excluded (C10)']
     ctx.model('ContainersMC', 'ContainersMC' if ctx.quick else 'ContainersMC_thorough',
               required=('DoPutSlice', 'DoPutOne', 'DoDelOne', 'DoAppend', 'DoPrepend'))
     # sub-views: FSTView state machine (Views.tla) model-checked, TLC-simulated behaviours replayed on real views
